@@ -170,6 +170,16 @@ def m_hname_try_from(ex, args, callee):
     raise Unsupported(f'HeaderName::try_from {n!r}')
 
 
+def m_hname_from_lowercase(ex, args, callee):
+    """HeaderName::from_lowercase(bytes): as try_from, but any upper-case letter is an error"""
+    n = dv(args[0])
+    if isinstance(n, PVec): n = bytes(dv(c.v) for c in n.items).decode('latin1')
+    if isinstance(n, str):
+        if n and all((ch.isalnum() and not ch.isupper()) or ch in "!#$%&'*+-.^_`|~" for ch in n): return ex.ok(n)
+        return ex.err(Opaque('InvalidHeaderName'))
+    raise Unsupported(f'HeaderName::from_lowercase {n!r}')
+
+
 def m_hvalue_try_from(ex, args, callee):
     v = dv(args[0])
     if isinstance(v, HV): return ex.ok(v)
@@ -286,6 +296,7 @@ def m_json_to_string(ex, args, callee):
 
 
 MODELS = [
+    (r'HeaderName::from_lowercase$', m_hname_from_lowercase),
     (r'<http::Error as From<.*>>::from$', lambda ex, a, c: Opaque('http::Error')),
     (r'Response::<.*>::builder$|^(http::|hyper::)?(response::)?Response::builder$', lambda ex, a, c: RespBuilder()),
     (r'response::Builder::status::|Builder::status::', m_builder_status),
